@@ -476,6 +476,10 @@ func runC08(c *Ctx) {
 		d := p.ArgDesc(calls[0], 1)
 		c.Check(Glob("call:(pkg/controller.*).Name(param#0)", d), "R08.5", FuncName(f)+" :: owned.New owner", calls[0].Pos(), d, "owner is "+d+", not the controller's Name()")
 	}
+
+	// ---------- R08.6 the store compares the stored owner
+	c.Import(runC01, "R01.3", ".Update ::", "R08.6", "E1", "inmem Update: the owner test is made on the stored resource, under the lock, before the version test and before any effect", 3)
+
 }
 
 // sliceContainsCall reports whether slice value v (a variadic argument) certainly contains, on
